@@ -445,7 +445,32 @@ def ATAD.accuracy {R : Type} [Zero R] [Div R] [Max R] [LT R] [DecidableLT R]
     (s : ATAD α m n) (norm : Vec α n → R) (x b : Vec α n) : R :=
   relResOf (norm (s.lhsApply x)) (norm b) (norm (fun i => b i - s.lhsApply x i))
 
+/-- `accuracy(X, B)` for 2-D arguments: `rel_res` ravels both sides, so `norm` is the Frobenius norm -/
+def ATAD.accuracyM {R : Type} [Zero R] [Div R] [Max R] [LT R] [DecidableLT R] {k : Nat}
+    (s : ATAD α m n) (norm : Mat α n k → R) (x b : Mat α n k) : R :=
+  relResOf (norm (s.lhsApplyM x)) (norm b) (norm (fun i l => b i l - s.lhsApplyM x i l))
+
 end ATADsec
+
+/-! ### `ConvATADSolver.__init__`: what is checked before any arithmetic -/
+
+/-- how the argument `A` presents itself -/
+structure ConvArg where
+  /-- `isinstance(A, ComposedLinearOperator)` -/
+  composed : Bool
+  /-- `isinstance(A.A, Sum)` -/
+  outerIsSum : Bool
+  /-- `isinstance(A.B, CircularConvolve)` -/
+  innerIsConv : Bool
+  /-- `isinstance(A.A.kwargs["axis"], int)` -/
+  axisIsInt : Bool
+
+/-- `TypeError` unless `A` is `Sum ∘ CircularConvolve`, then `ValueError` unless the sum runs over a single axis -/
+def convValidate (a : ConvArg) : Except String Unit :=
+  if !a.composed then .error "type"
+  else if !a.outerIsSum || !a.innerIsConv then .error "type"
+  else if !a.axisIsInt then .error "value"
+  else .ok ()
 
 /-! ## `scico.solver.ConvATADSolver` in the DFT domain
 
@@ -684,6 +709,16 @@ def linearRhs (zeroV : V) (f : Option (SqL2 S V Y)) (terms : List (Term S V U)) 
     | some f => zeroV + (two * f.scale) • f.A.adj (f.W f.y)
   terms.foldl (fun r t => r + t.rho • t.C.adj (t.z - t.u)) r0
 
+/-- the loss after `f.set_scale(s)` -/
+def SqL2.withScale (f : SqL2 S V Y) (s : S) : SqL2 S V Y := { f with scale := s }
+
+/-- What the solvers that precompute their left-hand side in `internal_init` (`MatrixSubproblemSolver`: `W = 2.0 * scale * f.W`,
+    `CircularConvolveSolver`: `A_lhs`) work with when `f.set_scale(s1)` is called *after* the ADMM object was built: the operator
+    assembled with the scale at construction, `compute_rhs()` with the current scale (recorded finding `stale-scale-after-init`).
+    `LinearSubproblemSolver` / `GenericSubproblemSolver` read the current scale on both sides (`f.hessian`, `f(x)` are evaluated lazily). -/
+def staleScaleSystem (zeroV : V) (f : SqL2 S V Y) (s1 : S) (terms : List (Term S V U)) : Option ((V → V) × V) :=
+  (linearLhs (some f) terms).map fun lhs => (lhs, linearRhs zeroV (some (f.withScale s1)) terms)
+
 /-- `G0BlockCircularConvolveSolver.compute_rhs`: the first term carries the extra factor `2 ω` -/
 def g0RhsRaw (zeroV : V) (omega : S) (terms : List (Term S V U)) : V :=
   let ws : List S := (two * omega) :: (terms.drop 1).map fun _ => 1
@@ -703,6 +738,11 @@ def fblockSystem (zeroV : V) (f : SqL2 S V Y) (terms : List (Term S V U)) : Opti
   | some g =>
     let c : S := two * f.scale
     some (fun x => f.A.gram x + (1 / c) • g x, (1 / c) • linearRhs zeroV (some f) terms)
+
+/-- `FBlockCircularConvolveSolver` after `f.set_scale(s1)`: `D` (built in `internal_init`) still divides by the old `2 scale`,
+    `solve` divides the right-hand side (current scale) by the new `2 s1` -/
+def fblockStaleSystem (zeroV : V) (f : SqL2 S V Y) (s1 : S) (terms : List (Term S V U)) : Option ((V → V) × V) :=
+  (fblockSystem zeroV f terms).map fun sys => (sys.1, (1 / (two * s1)) • linearRhs zeroV (some (f.withScale s1)) terms)
 
 /-- `G0BlockCircularConvolveSolver`: `D = reduce(+, [rho_i gram_i, i ≥ 2]) / (2 ω rho_1)`; system
     `(C₁ᴴC₁ + D) x = compute_rhs() / (2 ω rho_1)` -/
